@@ -26,12 +26,21 @@ package msgpack
 //@   loop 1 invariant (and (< (Slice.ptr vals) 0) (= (Slice.off vals) 0) (= (Slice.len vals) i) (<= 0 i) (<= i length))
 //@   loop 1 invariant (forall ((j Int)) (! (=> (and (trig j) (<= 0 j) (< j i)) (decoded_ok (select (select $H<Arr<cty.Value>> (Slice.ptr vals)) j) ety)) :pattern ((trig j))))
 //
-// Unknown values with refinements: contract assumed until the refinement builder (C05) is in place.
+// Unknown values with refinements. Proved: no panic escapes - every refinement-builder call (the builder
+// panics on contradictory refinements, which a hostile description can contain) runs under the deferred
+// catch-all recover, nothing before that point can panic, and the handler itself cannot; the builder's
+// preconditions are not established (pre_as_panic: where one cannot be assumed the call may panic or
+// return anything). The result clause is assumed, not proved (it needs the deep well-formedness and
+// unmarkedness of the decoded bounds, which the decoder contracts do not carry).
 //@ func msgpack.unmarshalUnknownValue
-//@   trusted
+//@   tags C17
+//@   pre_as_panic
 //@   borrows path
 //@   requires (and (wf_ty ty) (not (has_opt ty)))
-//@   ensures (=> (= result.1 nil.Any) (decoded_ok result.0 ty))
+//@   ensures[assumed] ok: (=> (= result.1 nil.Any) (decoded_ok result.0 ty))
+//@   let W (b_wip builder)
+//@   loop 1 publishes builder
+//@   loop 1 invariant (and (not (= builder 0)) (< (wip_num W) 0) (< (wip_str W) 0) (< (wip_coll W) 0) (< (wip_nul W) 0))
 //
 //@ func msgpack.unmarshalSet
 //@   tags C17
